@@ -559,6 +559,40 @@ func TestC20(t *testing.T) {
 				}
 			}
 		})
+		// lines that begin with, consist of or contain a control or format character: none of them is an
+		// end-of-input mark — each gets its response (a lexical error, unless the character sits in a string or
+		// comment or is a blank) and the session goes on
+		c.Sub("control-character-lines", func(s *Sub) {
+			var k int64
+			var cps []rune
+			for r := rune(1); r < 0x20; r++ {
+				if r != '\n' && r != '\r' {
+					cps = append(cps, r)
+				}
+			}
+			cps = append(cps, 0x7f, 0x80, 0x85, 0x9c, 0xa0, 0xad, 0x2028, 0x2029, 0xfeff, 0xfffe, 0xffff, 0x200b, 0x1a1a, 0x0404, 0xe0001)
+			for _, r := range cps {
+				k++
+				if !c.Mine(k) {
+					continue
+				}
+				ch := string(r)
+				lines := []string{"1 + 2;", ch, "3 + 4;", ch + " 5;", "\"a\" + \"b\";", "6; " + ch, ch + ch, bn.KwPrint + " \"" + ch + "\";", "// " + ch, bn.BMax + "(1, 2);"}
+				parts, status, raw, ok := c.c20Session(lines, true)
+				c.Ev.EnumCase("control-character-lines", true, func() string { return fmt.Sprintf("U+%04X", r) }, "control-lines")
+				fail := func(sig, msg string) {
+					s.Violation(Replay{Check: "builtin-session", Sig: sig, Source: strings.Join(lines, "\n"), Note: fmt.Sprintf("U+%04X: %s", r, msg), Observed: fmt.Sprintf("status=%d output=%q", status, clip(raw, 500))})
+				}
+				if !ok || status != 0 || len(parts) != len(lines)+2 {
+					fail("control-prompts", fmt.Sprintf("a session of %d lines must show %d prompts and end with status 0 (got %d prompts, status %d)", len(lines), len(lines)+1, len(parts)-1, status))
+					continue
+				}
+				if parts[1] != "3\n" || parts[3] != "7\n" || parts[5] != "ab\n" || parts[10] != "2\n" {
+					fail("control-answers", "the ordinary lines of the session are not answered as usual")
+				}
+			}
+			c.Ev.MarkExhaustive("every C0 control character except CR/LF and 15 further control / format / noncharacter code points: alone, first on a line, last on a line, doubled, inside a string, inside a comment, between ordinary lines")
+		})
 		// every callee form with 0-3 arguments as a session line of its own (each line brings its own
 		// declarations): a failing call ends neither the session nor any later answer
 		c.Sub("callee-form-sessions", func(s *Sub) {
